@@ -28,7 +28,19 @@ thread_local! {
     /// zero-size requests made inside an endpoint's domain (GlobalAlloc::alloc requires a
     /// non-zero size; Rust's own collections never ask for one)
     static ZERO_SIZE: Cell<u64> = const { Cell::new(0) };
+    /// blocks released a second time while still in quarantine
+    static DOUBLE_FREES: Cell<u64> = const { Cell::new(0) };
+    static LAST_DOUBLE_FREE: Cell<(u64, u64)> = const { Cell::new((0, 0)) };
+    /// released blocks are kept for a while before they go back to the system allocator, so that a
+    /// second release of the same block is recognised (by the mark in its header) instead of
+    /// corrupting the heap: (base pointer, total size, alignment of the inner layout)
+    static QUARANTINE: [Cell<(usize, usize, usize)>; QUARANTINE_SLOTS] = const { [const { Cell::new((0, 0, 0)) }; QUARANTINE_SLOTS] };
+    static QUARANTINE_NEXT: Cell<usize> = const { Cell::new(0) };
 }
+
+const QUARANTINE_SLOTS: usize = 2048;
+const QUARANTINE_MAX_BLOCK: usize = 1 << 16;
+const FREED_MARK: u32 = 0x8000_0000;
 
 pub struct Monitor;
 
@@ -77,6 +89,12 @@ unsafe impl GlobalAlloc for Monitor {
 
     unsafe fn dealloc(&self, ptr: *mut u8, layout: Layout) {
         let hdr = ptr.sub(HEADER_SIZE) as *mut Header;
+        if (*hdr).domain & FREED_MARK != 0 {
+            // released before and still in quarantine: count it, do not release again
+            let _ = DOUBLE_FREES.try_with(|d| d.set(d.get() + 1));
+            let _ = LAST_DOUBLE_FREE.try_with(|d| d.set(((*hdr).size, layout.size() as u64)));
+            return;
+        }
         let size = (*hdr).size as usize;
         let align = (*hdr).align as usize;
         let domain = (*hdr).domain as usize;
@@ -93,7 +111,28 @@ unsafe impl GlobalAlloc for Monitor {
             c.set(c.get() - 1);
         });
         let pre = prefix(align);
-        let inner = Layout::from_size_align_unchecked(size + pre, pre);
+        let total = size + pre;
+        if total <= QUARANTINE_MAX_BLOCK {
+            (*hdr).domain |= FREED_MARK;
+            let evicted = QUARANTINE_NEXT.try_with(|n| {
+                let i = n.get();
+                n.set((i + 1) % QUARANTINE_SLOTS);
+                QUARANTINE.try_with(|q| q[i].replace((ptr.sub(pre) as usize, total, pre))).ok()
+            });
+            match evicted {
+                Ok(Some((base, t, a))) => {
+                    if base != 0 {
+                        System.dealloc(base as *mut u8, Layout::from_size_align_unchecked(t, a));
+                    }
+                }
+                _ => {
+                    // thread-local storage is gone (thread exit): release at once
+                    System.dealloc(ptr.sub(pre), Layout::from_size_align_unchecked(total, pre));
+                }
+            }
+            return;
+        }
+        let inner = Layout::from_size_align_unchecked(total, pre);
         System.dealloc(ptr.sub(pre), inner);
     }
 }
@@ -116,6 +155,20 @@ pub fn live_blocks(domain: usize) -> i64 {
 /// Zero-size allocation requests made inside endpoint domains on this thread since the last reset.
 pub fn zero_size_requests() -> u64 {
     ZERO_SIZE.with(|z| z.get())
+}
+
+/// Blocks released twice (on this thread, since the last reset) and (size at allocation, size
+/// passed to the second release) of the latest one.
+pub fn double_frees() -> u64 {
+    DOUBLE_FREES.with(|d| d.get())
+}
+
+pub fn last_double_free() -> (u64, u64) {
+    LAST_DOUBLE_FREE.with(|d| d.get())
+}
+
+pub fn reset_double_frees() {
+    DOUBLE_FREES.with(|d| d.set(0));
 }
 
 pub fn reset_zero_size_requests() {
